@@ -464,6 +464,8 @@ impl Link {
     // Randomly break or repair this link.
     fn rand_partition_or_repair(&mut self, global_config: &config::Link, rand: &mut dyn RngCore) {
         let do_rand = self.rand_partition(global_config.message_loss(), rand);
+        #[cfg(turmoil_verif)]
+        crate::verif::log("fail", do_rand as u64);
         match (self.state_a_b, self.state_b_a) {
             (State::Healthy, _) | (_, State::Healthy) if do_rand => {
                 self.state_a_b = State::RandPartition;
@@ -474,6 +476,8 @@ impl Link {
             (State::RandPartition, _) | (_, State::RandPartition)
                 if self.rand_repair(global_config.message_loss(), rand) =>
             {
+                #[cfg(turmoil_verif)]
+                crate::verif::log("repair", 1);
                 self.release();
             }
             _ => {}
@@ -550,6 +554,11 @@ impl Link {
         let mult = config.latency_distribution.sample(rand);
         let range = (config.max_message_latency - config.min_message_latency).as_millis() as f64;
         let delay = config.min_message_latency + Duration::from_millis((range * mult) as _);
+        #[cfg(turmoil_verif)]
+        crate::verif::log(
+            "delay",
+            std::cmp::min(delay, config.max_message_latency).as_nanos() as u64,
+        );
 
         std::cmp::min(delay, config.max_message_latency)
     }
